@@ -562,3 +562,69 @@ def formula_text(f):
   if k == "not":
     return f"not ({formula_text(f[1])})"
   return "(" + f" {k} ".join(formula_text(g) for g in f[1]) + ")"
+
+
+# -- paths through a loop body --------------------------------------------------------------
+
+def body_paths(block, is_event=None, what="loop body"):
+  """Enumerates the ways through a block of statements (a loop body).
+  -> [(conds, events, how)]: the propositional path condition (list of
+  formulas), the statements for which is_event(stmt) held that the path
+  executes, and how it ends: 'break' / 'continue' / 'return' / 'raise' /
+  'end'.  Inner loops and try / match blocks are opaque steps (an
+  AnalysisError if they contain an event or can leave the outer iteration)."""
+  is_event = is_event or (lambda st: False)
+
+  def has_event(node):
+    return any(isinstance(n, ast.stmt) and is_event(n) for n in ast.walk(node))
+
+  def loop_leaves(st):
+    todo, out = list(ast.iter_child_nodes(st)), []
+    while todo:
+      n = todo.pop()
+      if isinstance(n, (ast.Break, ast.Continue)):
+        out.append(n)
+      if isinstance(n, (ast.For, ast.AsyncFor, ast.While) + _FUNCS + (ast.Lambda, ast.ClassDef)):
+        continue
+      todo.extend(ast.iter_child_nodes(n))
+    return out
+
+  def run(stmts, state):
+    finished, open_ = [], [state]
+    for st in stmts:
+      if not open_:
+        break
+      if isinstance(st, ast.If):
+        f = bool_formula(st.test)
+        nxt = []
+        for c, ev in open_:
+          fb, ob = run(st.body, (c + [f], ev))
+          fe, oe = run(st.orelse, (c + [("not", f)], ev))
+          finished += fb + fe
+          nxt += ob + oe
+        open_ = nxt
+      elif isinstance(st, (ast.Break, ast.Continue, ast.Return, ast.Raise)):
+        how = type(st).__name__.lower()
+        finished += [(c, ev, how) for c, ev in open_]
+        open_ = []
+      elif isinstance(st, (ast.With, ast.AsyncWith)):
+        nxt = []
+        for c, ev in open_:
+          fb, ob = run(st.body, (c, ev))
+          finished += fb
+          nxt += ob
+        open_ = nxt
+      elif isinstance(st, (ast.For, ast.AsyncFor, ast.While, ast.Try, ast.Match)):
+        if has_event(st):
+          raise AnalysisError(f"{what}: the tracked statement sits inside a nested "
+                              f"{type(st).__name__} block: not understood")
+        if any(isinstance(n, ast.Return) for n in _walk_same_fn(st)) or (
+            isinstance(st, (ast.Try, ast.Match)) and loop_leaves(st)):
+          raise AnalysisError(f"{what}: control leaves a nested "
+                              f"{type(st).__name__} block: not understood")
+      else:
+        if is_event(st):
+          open_ = [(c, ev + [st]) for c, ev in open_]
+    return finished, open_
+  finished, open_ = run(block, ([], []))
+  return finished + [(c, ev, "end") for c, ev in open_]
